@@ -25,8 +25,13 @@ pub fn main(tier: &str, seed: u64, n_override: Option<u64>) {
         let j = { let r = Robot { p, cons: None }; origin_joints(&mut rng, &r, PoseKind::Reachable) };
         let (f, t, w) = if idx % 3 == 0 { random_constraints(&mut rng, Some(&j)) } else { ([-3.1; 6], [3.1; 6], 0.0) };
         let cons = Constraints::new(f, t, w);
-        let base_t = random_iso(&mut rng, false);
-        let tool_t = random_iso(&mut rng, idx % 2 == 1);
+        let mut base_t = random_iso(&mut rng, false);
+        let mut tool_t = random_iso(&mut rng, idx % 2 == 1);
+        // transforms without an offset are transforms too: robot mounted upside down / tilted at the origin, angled tool at the flange centre
+        if idx % 5 == 3 { base_t.translation.vector = nalgebra::Vector3::zeros(); }
+        if idx % 7 == 4 { tool_t.translation.vector = nalgebra::Vector3::zeros(); }
+        if idx % 35 == 6 { base_t = Isometry3::identity(); }
+        if idx % 35 == 9 { tool_t = Isometry3::identity(); }
         let sz = |rng: &mut Rng| (rng.range(0.03, 0.12) * 256.0).round() as f32 / 256.0;
         let meshes: [TriMesh; 6] = std::array::from_fn(|_| box_mesh(sz(&mut rng), sz(&mut rng), sz(&mut rng), 1));
         let base_mesh = box_mesh(0.2, 0.2, 0.05, 1);
